@@ -110,7 +110,7 @@ func (g *BGr) key() string {
 
 func bigCanon(g *BGr) (string, string, string) {
 	var p []int
-	if msg, pan := try(func() { p = graph.CanonicalIsomorph(g.dense()) }); pan {
+	if msg, pan := try(func() { p = append([]int(nil), graph.CanonicalIsomorph(g.dense())...) }); pan {
 		return "", "canonical/panic", msg
 	}
 	if !isPerm(p, g.n) {
